@@ -102,6 +102,21 @@ def run(tier, wd):
             gb.append({"rel": "single", "members": [{"si": si, "env": [], "argv": new}]})
     tb = gc.run_groups(rep, wd, binpath, [p], specs_b, gb, "verbatim", law="oracle")
     cnt_b = sum(1 for t in tb if t[1]["preds"][0]["acc"])
+    # (c) the marker and sub commands: a -- among a level's own tokens (also in front of the sub command name) only ends that level's
+    # options; CmdTree.tla says which command runs and what every level binds
+    from vlib import tree as T
+    from props import treecommon as tc
+    t1 = T.trees()[0]
+    trs_c, rows_c = tc.run_tree(rep, wd, binpath, ["c1", "d1", "x", "-f", "--", "-n=7"], 4, ["continue"], "c09-tree", trees=[t1])
+    tree_cases = 0
+    for c, r in rows_c:
+        if r.get("skipped") or "--" not in c["argv"] or c["kind"] == "noaction":
+            continue
+        tree_cases += 1
+        js = [j for j in T.judge(c, r) if j[0] in ("routing", "bindings")]
+        if js and not c.get("greedy"):
+            rep.violation(tc.describe(trs_c, c) + ": " + "; ".join(t for _, t in js), tc.replay_obj(trs_c, c))
+    rep.cov["command_tree_vectors_with_a_marker"] = tree_cases
     gc.finish_groups(rep, [p], specs_a + specs_b, [], "")
     # finish_groups over both parts, with their own spec tables
     import collections
@@ -136,6 +151,9 @@ def replay(path, wd):
     import json
     with open(path) as f:
         o = json.load(f)["replay"]
+    if o.get("engine") == "tree":
+        from props import treecommon as tc
+        return tc.replay(path, wd, ("routing", "bindings"))
     if o["rel"] == "single":
         return gc.rerun_replay(path, wd, law="oracle")
     return gc.rerun_replay(path, wd)
